@@ -303,6 +303,7 @@ func c16pScenario(c *choice.Ctx, rep *report.R, kind string, depth int) {
 		wait()
 		check(false)
 	}
+	selOff()
 	if closes == 0 {
 		doClose()
 		wait()
